@@ -114,7 +114,8 @@ def main(argv=None):
         modname = 'props.' + pid.lower()
         mod = importlib.import_module(modname)
         units = mod.units(tier)
-        if a.only: units = [u for u in units if fnmatch.fnmatchcase(u[0], a.only)]
+        if a.only:
+            units = [u for u in units if fnmatch.fnmatchcase(u[0], a.only)]; os.environ['VERIF_ONLY'] = '1'
         if a.list:
             for u in units: print(u[0])
             return 0
